@@ -168,6 +168,12 @@ class ECDSAPublicKey(_ECKey):
                                                                public_value)
         pub = pub_key.public_numbers()
 
+        if public_value[0] != 4:
+            # SSH (RFC 5656) only uses uncompressed points, so convert
+            # a point which was provided in compressed form
+            public_value = pub_key.public_bytes(
+                Encoding.X962, PublicFormat.UncompressedPoint)
+
         return cls(pub_key, curve_id, pub, public_value)
 
     def verify(self, data: bytes, sig: bytes, hash_name: str = '') -> bool:
